@@ -9,7 +9,8 @@ CLS = ["known_C13_sql_prefix", "known_C13_invalid_enum_fill", "known_C13_pattern
 
 RULE = ("projects = corpus witnesses (corpus/cli/c13_*.json) + evolutions of loader-accepted model sets from the shared generator, each under a drawn "
         "configuration (prefix ''/'app_', json/yaml/yml model and migration files, 8 filename patterns, default/custom directories, files in sub-directories); "
-        "per model set the sequence diff, sql, status, log, revision (fill values via --fill-with, no terminal, or a pty answering prompts with their defaults) "
+        "plus 63 targeted streams around the fill logic (a column becoming NOT NULL with its default kept / removed / changed / added / absent, or added NOT NULL with / without default; text, integer, enum; no terminal, --fill-with, pty); "
+        "per model set the sequence diff, sql x3 backends, status, log x3 backends, revision (fill values via --fill-with, no terminal, or a pty answering prompts with their defaults) "
         "is run twice (before and after the revision). One evaluation = one such observation of a project state. "
         "non-trivial = pending plan with >= 2 actions or stored history with >= 2 migrations; distinct by hash of (config, model files, migration files)")
 
@@ -33,6 +34,7 @@ def run(tier, seed):
         "model = coq/cli/Model/Project.v over the M1 schema algebra (VV.M1: plan_next, replay, validate_migration_plan, with_prefix, revision fill); tie = K-cli evaluated inside Coq on every observed project state",
         "a project is what the loader parses: files that do not parse are outside the model; SQL text is outside this layer (cmd_sql / cmd_log are modelled down to the action list and baseline handed to build_plan_queries; a failure or panic inside SQL generation is accepted as 'outside')",
         "baselines handed to the SQL generator are not observable from the binary and are tied only through VV.M1's K-apply; the macro side of log_equals_runtime is tied by reading (line anchors) and by layer mig's K-mig, not here",
+        "statements: `log` / `sql` are run for postgres, mysql and sqlite and the statement texts they print per action must equal those built by harness_cli/hcli render (the macro's loop: macro loader, with_prefix, build_plan_queries against the baseline accumulated BEFORE the migration, real apply_action); the model's baselines are compared with hcli's inside Coq (K-baseline, sub-checks 6 and 7)",
         "refusal / missing terminal are told apart from other errors by one stable substring of stderr each (oracle only); the correspondence compares exit status, parsed action lines, written file name, parsed written plan and files added/changed",
         "sanitize_comment is exact for ASCII; bytes >= 128 are kept unchanged (generators avoid upper-case non-ASCII and non-alphanumeric non-ASCII in messages)"]
     chk.cov["trusted_base"] = vflib.TRUSTED_COMMON + [
@@ -75,7 +77,12 @@ def run(tier, seed):
         if o["diff"][0] == "changes":
             for a in o["diff"][1]:
                 kinds[a[0]] += 1
-    chk.cov["distribution"] = {"observations": dict(dist), "action_kinds_listed_by_diff": dict(kinds), "skipped_unparsable": res["skipped"],
+    stm = collections.Counter()
+    for r in rows:
+        for k, v in r["obs"].get("stmt_compared", {}).items():
+            stm[k] += v
+        stm["streams:" + r["tag"].split(":")[0]] += 1
+    chk.cov["distribution"] = {"statement_lists_compared_with_runtime_rendering (x3 backends)": dict(stm), "observations": dict(dist), "action_kinds_listed_by_diff": dict(kinds), "skipped_unparsable": res["skipped"],
                                "drive_s": res["drive_s"]}
     attributed, unexplained = clirun.verdict(chk, "C13", res, CLS, input_of, "K-cli")
     # share of observations that fall under a proved positive theorem rather than being merely tested
